@@ -27,7 +27,7 @@ ASSUMPTIONS = [
 ]
 NOT_REACHED = ["non-increasing frequency grids", "find_peaks_kwargs with prominence/width", "grids above 400 points"]
 BUDGET = {"quick": dict(cases=2400, seconds=60, shards=4),
-          "thorough": dict(cases=120000, seconds=600, shards=16)}
+          "thorough": dict(cases=300000, seconds=600, shards=16)}
 REQUIRED = ["mon:cached-peak-matches-stored-range", "mon:mean-curve-peak", "mon:nan-peak-not-in-statistics",
             "invariant_evaluations"]
 
